@@ -375,18 +375,25 @@ def check_c03(mt, sess):
     # instructions directly in front of a place where a block was deleted
     # with retarget_to_proxy may fall through to that proxy (documented)
     proxy_fall = set()
+    after_pmark = set()
     for sname in model.section_order:
         last = None
         armed_src = None
+        armed = False
         for u in model.sections[sname]:
             for t in u.toks:
                 if t.is_bytes():
                     if armed_src is not None:
                         proxy_fall.add(armed_src)
+                    if armed:
+                        after_pmark.add(t.id)
                     armed_src = None
+                    armed = False
                     last = t
-                elif t.kind == "pmark" and last is not None:
-                    armed_src = last.id
+                elif t.kind == "pmark":
+                    armed = True
+                    if last is not None:
+                        armed_src = last.id
     entry_addrs = set()
     fe = world.module.aux_data.get("functionEntries")
     if fe is not None:
@@ -401,6 +408,9 @@ def check_c03(mt, sess):
             ta = addr.get(tgt[1])
             tk = ("addr", ta)
             if typ == "Fallthrough" and src in proxy_fall:
+                tk = ("addr-or-proxy", ta)
+            if typ.startswith("Return") and tgt[1] in after_pmark:
+                # a return site that was deleted with retarget_to_proxy
                 tk = ("addr-or-proxy", ta)
         elif tgt[0] == "end":
             tk = ("addr-end", tgt[1])
